@@ -139,6 +139,58 @@ pub mod sampled {
             }
         }
     }
+    /// the id framing of gamenet/common (SystemOrGame::decode_id / encode_id) around a canonical payload:
+    /// packed int (id << 1 | system flag), for UUID-identified messages id 0 followed by the 16 UUID bytes
+    pub fn check_framed(v: &Vector) {
+        use libtw2_gamenet_common::msg::SystemOrGame;
+        use libtw2_gamenet_common::traits::MessageExt;
+        if !(v.ok && (v.section == "game" || v.section == "system")) {
+            return;
+        }
+        let what = format!("framed {} {:?} (vector line {})", v.section, v.id, v.line);
+        let sys = (v.section == "system") as i32;
+        let frame = |head: i32| -> Vec<u8> {
+            let mut b = [0u8; 8];
+            let n = with_packer(&mut b[..], |mut p| {
+                p.write_int(head).unwrap();
+                p.written().len()
+            });
+            let mut f = b[..n].to_vec();
+            if let Id::Uuid(u) = &v.id {
+                f.extend_from_slice(u);
+            }
+            f.extend_from_slice(&v.bytes);
+            f
+        };
+        let head = match &v.id {
+            Id::Ordinal(i) => (*i << 1) | sys,
+            Id::Uuid(_) => sys,
+        };
+        let framed = frame(head);
+        let mut w: Vec<Warning> = Vec::new();
+        let mut buf: Vec<u8> = Vec::with_capacity(framed.len() + 64);
+        match crate::msg::decode(&mut w, &mut Unpacker::new(&framed)) {
+            Ok(SystemOrGame::Game(m)) => {
+                assert!(sys == 0, "system message decoded as game message: {}", what);
+                let e = with_packer(&mut buf, |p| m.encode(p).map(|b| b.to_vec())).unwrap();
+                assert!(e == framed, "re-encoding of the framed message differs: {}", what);
+            }
+            Ok(SystemOrGame::System(m)) => {
+                assert!(sys == 1, "game message decoded as system message: {}", what);
+                let e = with_packer(&mut buf, |p| m.encode(p).map(|b| b.to_vec())).unwrap();
+                assert!(e == framed, "re-encoding of the framed message differs: {}", what);
+            }
+            Err(_) => panic!("canonical framed message rejected: {}", what),
+        }
+        assert!(w.is_empty(), "canonical framed message decodes with a warning: {}", what);
+        // an id that no description contains (negative, or far above every described ordinal) is unknown, whatever
+        // follows -- in particular it is not an announcement of a UUID-identified message
+        for bad in [-1i32, -2, -3, -4, i32::MIN, i32::MIN + 1, (4000 << 1) | sys, (i32::MAX >> 1 << 1) | sys] {
+            let f = frame(bad);
+            let mut w2: Vec<Warning> = Vec::new();
+            assert!(crate::msg::decode(&mut w2, &mut Unpacker::new(&f)).is_err(), "unknown message id {} accepted: {}", bad, what);
+        }
+    }
     static DONE: Mutex<Option<Vec<Vector>>> = Mutex::new(None);
     /// all vectors, once per process; returns the vectors for the arbitrary-bytes part
     pub fn all_vectors_once() -> Vec<Vector> {
@@ -147,6 +199,7 @@ pub mod sampled {
             let v = load();
             for x in &v {
                 check(x);
+                check_framed(x);
             }
             println!("C14-VECTORS crate={} vectors={} all as described", env!("CARGO_PKG_NAME"), v.len());
             *g = Some(v);
